@@ -100,6 +100,8 @@ ATTR = [
     (r"^leftover-tasks$", ["C11"]),
     (r"^after-top-", ["C11", "C13"]),
     (r"^bad-root-begin$", ["C02"]),
+    (r"^alien-job-run$", ["C02", "C01", "C17"]),
+    (r"^alien-job-shutdown$", ["C13", "C17"]),
 ]
 
 
